@@ -6,7 +6,7 @@
 (* names a ndjson file of event indices consumed without judgement (used   *)
 (* by the driver to keep judging after a rejected / known-finding event).  *)
 (***************************************************************************)
-EXTENDS JField, JCurve, Json, IOUtils, TLC
+EXTENDS JField, JScalar, Json, IOUtils, TLC
 
 Rec  == ndJsonDeserialize(IOEnv.TRACE)
 SkipSeq == ndJsonDeserialize(IOEnv.SKIP)
@@ -21,6 +21,12 @@ Stateless(e) ==
   CASE e.op = "fp"   -> JudgeFp(e)
     [] e.op = "repr" -> JudgeRepr(e)
     [] e.op = "ext"  -> JudgeExt(e)
+    [] e.op = "smul" -> JudgeSmul(e)
+    [] e.op = "wn"   -> JudgeWn(e)
+    [] e.op = "wnrec" -> JudgeWnrec(e)
+    [] e.op = "pipwin" -> JudgePipwin(e)
+    [] e.op = "msm"  -> JudgeMsm(e)
+    [] e.op = "msml" -> JudgeMsml(e)
 
 IsStateful(e) == e.op \in {"cm"}
 
